@@ -1,4 +1,5 @@
 import Bxh.Model.Mempool
+import Bxh.Proofs.PoolBatch
 /-!
 # C18 — the pool batches each account's transactions in gap-free nonce order, once
 Theorems about `generateBlock` / `genStep` / `drainSkipped` of `Bxh.Mempool`
@@ -77,5 +78,62 @@ theorem C18_batch_size_bound (p : Pool) (p' : Pool) (b : Batch) (hnb : 0 < p.non
   · cases h
     simp only [List.length_map]
     exact Nat.le_trans hinv.1 hlim.2
+
+/-- the (account, nonce) pointers `generateBlock` puts into the batch, in batch order -/
+def batchPointers (p : Pool) : List Ptr :=
+  let limit := if p.nonBatch > p.batchSize then p.batchSize else p.nonBatch
+  ((sortPrio p.priority).foldl (genStep limit) { pool := p }).result
+
+/-- the batch handed to consensus is the image of those pointers (the transactions stored under them) -/
+theorem C18_batch_is_pointer_image (p p' : Pool) (b : Batch) (h : generateBlock p = (p', some b)) :
+    b.txs = (batchPointers p).map (fun ptr => KV.get p'.items ptr) := by
+  unfold generateBlock at h
+  simp only at h
+  generalize hl : (if p.nonBatch > p.batchSize then p.batchSize else p.nonBatch) = limit at h
+  have hbp : batchPointers p = ((sortPrio p.priority).foldl (genStep limit) { pool := p }).result := by
+    unfold batchPointers; simp only [hl]
+  split at h
+  · cases h
+  · cases h; rw [hbp]
+
+/-- **gap-free and once, for every pool state** (whatever arrived in whatever order, whatever is parked, whatever the
+priority index holds — including two entries for one pointer): the pointers of one batch are pairwise distinct, none
+of them was already batched and uncommitted, and each carries either the account's committed nonce or the successor
+of a nonce that is batched (before this batch or earlier in it) — the batch never skips a nonce -/
+theorem C18_generate_gap_free_no_repeat (p : Pool) :
+    (batchPointers p).Nodup ∧
+    (∀ ptr ∈ batchPointers p, ptr ∉ p.batched) ∧
+    (∀ ptr ∈ batchPointers p, ptr.2 = cn p ptr.1 ∨
+      (1 ≤ ptr.2 ∧ ((ptr.1, ptr.2 - 1) ∈ p.batched ∨ (ptr.1, ptr.2 - 1) ∈ batchPointers p))) := by
+  unfold batchPointers
+  simp only
+  generalize hl : (if p.nonBatch > p.batchSize then p.batchSize else p.nonBatch) = limit
+  have hI := fold_binv p limit (sortPrio p.priority) { pool := p } (binv_init p)
+  refine ⟨hI.nodup, fun ptr h => (hI.fresh ptr h).2, fun ptr h => ?_⟩
+  rcases hI.gapfree ptr h with h1 | ⟨h1, h2⟩
+  · exact Or.inl h1
+  · exact Or.inr ⟨h1, (hI.grown _).mp h2⟩
+
+/-- and what is batched afterwards is what was batched before plus this batch -/
+theorem C18_batched_grows_by_batch (p p' : Pool) (b : Batch) (h : generateBlock p = (p', some b)) (x : Ptr) :
+    x ∈ p'.batched ↔ (x ∈ p.batched ∨ x ∈ batchPointers p) := by
+  unfold generateBlock at h
+  simp only at h
+  generalize hl : (if p.nonBatch > p.batchSize then p.batchSize else p.nonBatch) = limit at h
+  have hI := fold_binv p limit (sortPrio p.priority) { pool := p } (binv_init p)
+  have hbp : batchPointers p = ((sortPrio p.priority).foldl (genStep limit) { pool := p }).result := by
+    unfold batchPointers; simp only [hl]
+  split at h
+  · cases h
+  · cases h
+    rw [hbp]
+    exact hI.grown x
+
+/-- non-vacuity: nonces 0,1,2 of one account ready (committed nonce 0), nonce 1 listed twice in the priority index
+(a superseded transaction), nonce 4 parked: the batch is 0,1,2 -/
+example :
+    let p : Pool := { nonBatch := 3, items := [(("a", 0), ⟨"a", 0, "h0", 7⟩), (("a", 1), ⟨"a", 1, "h1", 9⟩), (("a", 2), ⟨"a", 2, "h2", 1⟩)] }
+    -- the priority index in iteration order (time, account, nonce)
+    ([(1, "a", 2), (5, "a", 1), (7, "a", 0), (9, "a", 1)].foldl (genStep 3) { pool := p }).result = [("a", 0), ("a", 1), ("a", 2)] := by decide
 
 end Bxh.Props.C18
